@@ -20,7 +20,7 @@ pub fn ty_text(t: &Ty, u: &Universe) -> String {
         Ty::Bool => "bool".into(), Ty::Char => "char".into(), Ty::F32 => "f32".into(), Ty::F64 => "f64".into(),
         Ty::String => "String".into(), Ty::Str => "&'a str".into(), Ty::CowStr => "std::borrow::Cow<'a, str>".into(),
         Ty::BytesVec => "Vec<u8>".into(), Ty::BytesSlice => "&'a [u8]".into(), Ty::BytesArr4 => "[u8; 4]".into(), Ty::CowBytes => "std::borrow::Cow<'a, [u8]>".into(),
-        Ty::ByteVec => "minicbor::bytes::ByteVec".into(), Ty::ByteSliceRef => "&'a minicbor::bytes::ByteSlice".into(),
+        Ty::ByteVec => "minicbor::bytes::ByteVec".into(), Ty::ByteSliceRef => "&'a minicbor::bytes::ByteSlice".into(), Ty::CowByteSlice => "std::borrow::Cow<'a, minicbor::bytes::ByteSlice>".into(),
         Ty::VecOf(x) => format!("Vec<{}>", ty_text(x, u)),
         Ty::BoxOf(x) => format!("Box<{}>", ty_text(x, u)),
         Ty::MapU8(x) => format!("std::collections::BTreeMap<u8, {}>", ty_text(x, u)),
@@ -36,7 +36,10 @@ pub fn ty_text(t: &Ty, u: &Universe) -> String {
 }
 
 fn field_ty_text(f: &Field, u: &Universe) -> String {
-    let t = ty_text(&f.ty, u);
+    let mut t = ty_text(&f.ty, u);
+    // the spelling of the path to `ByteSlice` must not matter either: imported name, module-qualified, fully qualified
+    // (the chunk crates import `minicbor::bytes::{self, ByteSlice}`)
+    if matches!(f.ty, Ty::ByteSliceRef | Ty::CowByteSlice) { t = t.replace("minicbor::bytes::ByteSlice", ["ByteSlice", "bytes::ByteSlice", "minicbor::bytes::ByteSlice"][(f.idx as usize + f.name.len() / 2) % 3]) }
     // the spelling of `Option` must not matter (fully qualified paths are what code generators emit)
     if f.optional { format!("{}<{}>", ["Option", "std::option::Option", "core::option::Option", "::core::option::Option", "Option"][(f.idx as usize + f.name.len()) % 5], t) } else { t }
 }
@@ -157,7 +160,7 @@ fn model_expr(t: &Ty, x: &str, u: &Universe) -> String {
         Ty::F32 => format!("vcore::Item::F32({}.to_bits())", x),
         Ty::F64 => format!("vcore::Item::F64({}.to_bits())", x),
         Ty::String | Ty::Str | Ty::CowStr => format!("fr.text(&{}[..])", x),
-        Ty::BytesVec | Ty::BytesSlice | Ty::BytesArr4 | Ty::CowBytes | Ty::ByteVec | Ty::ByteSliceRef => format!("fr.bytes(&{}[..])", x),
+        Ty::BytesVec | Ty::BytesSlice | Ty::BytesArr4 | Ty::CowBytes | Ty::ByteVec | Ty::ByteSliceRef | Ty::CowByteSlice => format!("fr.bytes(&{}[..])", x),
         Ty::VecOf(e) => format!("{{ let v: Vec<vcore::Item> = {}.iter().map(|e| {}).collect(); fr.array(v) }}", x, model_expr(e, "e", u)),
         Ty::BoxOf(e) => model_expr(e, &format!("(&**{})", x), u),
         Ty::MapU8(e) => format!("{{ let v: Vec<(vcore::Item, vcore::Item)> = {}.iter().map(|(k, e)| (fr.uint(*k as u64), {})).collect(); fr.map(v) }}", x, model_expr(e, "e", u)),
@@ -232,7 +235,7 @@ fn same_expr(t: &Ty, a: &str, b: &str) -> String {
         Ty::MapU8(e) => format!("({a}.len() == {b}.len() && {a}.iter().zip({b}.iter()).all(|((k1, x), (k2, y))| k1 == k2 && {}))", same_expr(e, "x", "y"), a = a, b = b),
         Ty::F32 | Ty::F64 => format!("{}.to_bits() == {}.to_bits()", a, b),
         Ty::Struct(_) | Ty::Enum(_) | Ty::GenericInst(_) | Ty::GenericInstOpt(_) => format!("{}.same({})", a, b),
-        Ty::CowStr | Ty::CowBytes | Ty::String | Ty::Str | Ty::BytesVec | Ty::BytesSlice | Ty::BytesArr4 | Ty::ByteVec | Ty::ByteSliceRef => format!("{}[..] == {}[..]", a, b),
+        Ty::CowStr | Ty::CowBytes | Ty::String | Ty::Str | Ty::BytesVec | Ty::BytesSlice | Ty::BytesArr4 | Ty::ByteVec | Ty::ByteSliceRef | Ty::CowByteSlice => format!("{}[..] == {}[..]", a, b),
         Ty::Param => format!("crate::rt::ParamModel::psame({}, {})", a, b),
         _ => format!("{} == {}", a, b)
     }
@@ -247,7 +250,7 @@ fn borrow_expr(t: &Ty, f: &Field, x: &str, direct: bool) -> Option<String> {
     match t {
         Ty::Str => Some(format!("crate::rt::inside({}.as_ptr(), {}.len(), input)", x, x)),
         Ty::BytesSlice | Ty::ByteSliceRef => Some(format!("crate::rt::inside({}.as_ptr(), {}.len(), input)", x, x)),
-        Ty::CowStr | Ty::CowBytes if direct && f.b && !f.optional => Some(format!("(match {} {{ std::borrow::Cow::Borrowed(s) => crate::rt::inside(s.as_ptr(), s.len(), input), std::borrow::Cow::Owned(_) => false }})", x)),
+        Ty::CowStr | Ty::CowBytes | Ty::CowByteSlice if direct && f.b && !f.optional => Some(format!("(match {} {{ std::borrow::Cow::Borrowed(s) => crate::rt::inside(s.as_ptr(), s.len(), input), std::borrow::Cow::Owned(_) => false }})", x)),
         Ty::VecOf(e) => borrow_expr(e, f, "e", false).map(|inner| format!("{}.iter().all(|e| {})", x, inner)),
         Ty::BoxOf(e) => borrow_expr(e, f, &format!("(&**{})", x), false),
         Ty::MapU8(e) => borrow_expr(e, f, "e", false).map(|inner| format!("{}.values().all(|e| {})", x, inner)),
